@@ -16,6 +16,9 @@ pub mod c12;
 pub mod c13;
 pub mod c14;
 pub mod c15;
+pub mod c16;
+pub mod c17;
+pub mod c18;
 
 pub const TRUSTED: &[&str] = &[
     "rustc / std",
@@ -26,7 +29,7 @@ pub const TRUSTED: &[&str] = &[
 ];
 
 pub fn all() -> Vec<PropDef> {
-    vec![c01::def(), c02::def(), c03::def(), c04::def(), c05::def(), c06::def(), c07::def(), c08::def(), c09::def(), c10::def(), c11::def(), c12::def(), c13::def(), c14::def(), c15::def()]
+    vec![c01::def(), c02::def(), c03::def(), c04::def(), c05::def(), c06::def(), c07::def(), c08::def(), c09::def(), c10::def(), c11::def(), c12::def(), c13::def(), c14::def(), c15::def(), c16::def(), c17::def(), c18::def()]
 }
 
 pub fn find(id: &str) -> Option<PropDef> {
